@@ -4,6 +4,7 @@ import (
 	"fmt"
 	"go/ast"
 	"go/types"
+	"sort"
 	"strings"
 )
 
@@ -192,4 +193,223 @@ func (w *World) callersOutside(fd *FrameDecl, allowed map[string]bool) []string 
 		}
 	}
 	return offenders
+}
+
+// checkImpls: behavioural subtyping for interface-method contracts. Every type of the module that implements
+// the interface must carry, for that method, a contract that (textually) assumes no more (its requires are among
+// the interface's) and guarantees no less (the interface's ensures and modifies are among its own).
+func (w *World) checkImpls(prop string) []*Obligation {
+	var out []*Obligation
+	for _, key := range sortedKeys(w.Contracts) {
+		c := w.Contracts[key]
+		if !hasProp(c.Props, prop) {
+			continue
+		}
+		parts := strings.SplitN(c.Key, ".", 2)
+		if len(parts) != 2 {
+			continue
+		}
+		pi := w.Pkgs[c.Pkg]
+		if pi == nil {
+			continue
+		}
+		tobj := pi.P.Types.Scope().Lookup(parts[0])
+		if tobj == nil {
+			continue
+		}
+		iface, ok := tobj.Type().Underlying().(*types.Interface)
+		if !ok {
+			continue
+		}
+		for _, p := range w.Pkgs {
+			scope := p.P.Types.Scope()
+			for _, name := range scope.Names() {
+				tn, ok := scope.Lookup(name).(*types.TypeName)
+				if !ok || tn.IsAlias() {
+					continue
+				}
+				T := tn.Type()
+				if _, isI := T.Underlying().(*types.Interface); isI {
+					continue
+				}
+				if !types.Implements(T, iface) && !types.Implements(types.NewPointer(T), iface) {
+					continue
+				}
+				fam := shortPkg(p.Path) + "." + name + "." + parts[1] + "#impl." + parts[0]
+				o := &Obligation{ID: fam + "@1", Family: fam, Kind: "impl", Func: shortPkg(p.Path) + "." + name + "." + parts[1], Goal: "true", Backend: "syntactic",
+					Text: "contract of " + name + "." + parts[1] + " refines the contract of interface method " + c.Key}
+				ic := w.Contracts[p.Path+"::"+name+"."+parts[1]]
+				switch {
+				case ic == nil:
+					o.Status = "unknown"
+					o.Text += " -- implementation has no contract"
+				default:
+					var missing []string
+					have := map[string]bool{}
+					for _, e := range ic.Ensures {
+						have["E:"+e.Text] = true
+					}
+					for _, m := range ic.Modifies {
+						have["M:"+m.Text] = true
+					}
+					for _, e := range c.Ensures {
+						if !have["E:"+e.Text] {
+							missing = append(missing, "ensures "+e.Text)
+						}
+					}
+					imods := map[string]bool{}
+					for _, m := range c.Modifies {
+						imods[m.Text] = true
+					}
+					for _, m := range ic.Modifies {
+						if !imods[m.Text] {
+							missing = append(missing, "modifies "+m.Text+" (not allowed by the interface contract)")
+						}
+					}
+					ireq := map[string]bool{}
+					for _, r := range c.Requires {
+						ireq[r.Text] = true
+					}
+					for _, r := range ic.Requires {
+						if !ireq[r.Text] && !strings.Contains(r.Text, "!= nil") {
+							missing = append(missing, "requires "+r.Text+" (not guaranteed by callers through the interface)")
+						}
+					}
+					if len(missing) == 0 {
+						o.Status = "discharged"
+					} else {
+						o.Status = "refuted"
+						o.Text += " -- " + strings.Join(missing, "; ")
+					}
+				}
+				out = append(out, o)
+			}
+		}
+	}
+	return out
+}
+
+// checkRecursion: call-graph cycles among the functions under contract for this property. Calls are verified
+// against contracts, so a cycle is invisible to the per-function proofs: unless the cycle threads an explicit
+// depth bound (contract clause `recursion <bound>`, itself proved), input-driven recursion is unbounded and
+// can exhaust the goroutine stack (a fatal, unrecoverable error in Go).
+func (w *World) checkRecursion(prop string) []*Obligation {
+	type node struct {
+		key  string
+		pi   *PkgInfo
+		fd   *ast.FuncDecl
+		c    *Contract
+		outs []string
+	}
+	nodes := map[string]*node{}
+	objKey := map[*types.Func]string{}
+	for _, key := range sortedKeys(w.Contracts) {
+		c := w.Contracts[key]
+		if c.Trusted || !hasProp(c.Props, prop) {
+			continue
+		}
+		pi := w.Pkgs[c.Pkg]
+		if pi == nil || pi.Funcs[c.Key] == nil {
+			continue
+		}
+		fd := pi.Funcs[c.Key]
+		nodes[key] = &node{key: key, pi: pi, fd: fd, c: c}
+		if obj, ok := pi.P.TypesInfo.Defs[fd.Name].(*types.Func); ok {
+			objKey[obj] = key
+		}
+	}
+	for _, n := range nodes {
+		seen := map[string]bool{}
+		ast.Inspect(n.fd.Body, func(x ast.Node) bool {
+			id, ok := x.(*ast.Ident)
+			if !ok {
+				return true
+			}
+			if f, ok := n.pi.P.TypesInfo.Uses[id].(*types.Func); ok {
+				if k, ok := objKey[f.Origin()]; ok && !seen[k] {
+					seen[k] = true
+					n.outs = append(n.outs, k)
+				}
+			}
+			return true
+		})
+		sort.Strings(n.outs)
+	}
+	// Tarjan SCC
+	index := 0
+	idx := map[string]int{}
+	low := map[string]int{}
+	on := map[string]bool{}
+	var stack []string
+	var sccs [][]string
+	var strong func(v string)
+	strong = func(v string) {
+		idx[v], low[v] = index, index
+		index++
+		stack = append(stack, v)
+		on[v] = true
+		for _, wk := range nodes[v].outs {
+			if _, ok := idx[wk]; !ok {
+				strong(wk)
+				if low[wk] < low[v] {
+					low[v] = low[wk]
+				}
+			} else if on[wk] && idx[wk] < low[v] {
+				low[v] = idx[wk]
+			}
+		}
+		if low[v] == idx[v] {
+			var comp []string
+			for {
+				x := stack[len(stack)-1]
+				stack = stack[:len(stack)-1]
+				on[x] = false
+				comp = append(comp, x)
+				if x == v {
+					break
+				}
+			}
+			sccs = append(sccs, comp)
+		}
+	}
+	for _, k := range sortedKeys(nodes) {
+		if _, ok := idx[k]; !ok {
+			strong(k)
+		}
+	}
+	var out []*Obligation
+	for _, comp := range sccs {
+		cyclic := len(comp) > 1
+		if !cyclic {
+			for _, o := range nodes[comp[0]].outs {
+				if o == comp[0] {
+					cyclic = true
+				}
+			}
+		}
+		if !cyclic {
+			continue
+		}
+		sort.Strings(comp)
+		bounded := false
+		var names []string
+		for _, k := range comp {
+			n := nodes[k]
+			names = append(names, shortPkg(n.c.Pkg)+"."+n.c.Key)
+			if n.c.Depth != "" {
+				bounded = true
+			}
+		}
+		fam := names[0] + "#recursion"
+		o := &Obligation{ID: fam + "@1", Family: fam, Kind: "recursion", Func: names[0], Goal: "false", Backend: "syntactic",
+			Text: "input-driven recursion without a depth bound: " + strings.Join(names, " <-> ")}
+		if bounded {
+			o.Status = "unknown"
+			o.Text += " (a `recursion` bound is declared but bounded-depth proofs are not implemented)"
+		} else {
+			o.Status = "refuted"
+		}
+		out = append(out, o)
+	}
+	return out
 }
